@@ -365,7 +365,7 @@ Definition expected_visited : list (ctor * slot) :=
    (KPeriod, S_end); (KAll, S_term); (KAgg, S__filters); (KAnalytic, S__filters); (KAnalytic, S__partition);
    (KAnalytic, S__orderbys); (KExtract, S_field); (KExists, S_container); (KQuery, S__updates); (KClickHouse, S__updates);
    (* visited since 1c7b7d2, 2459d05, 842179f, 0399ee8, e9a97c9, 1465503 (and the dialect builders' inherited slots) *)
-   (KValue, S_value); (KAtTz, S_field); (KClickHouse, S__distinct_on); (KPostgres, S__from); (KPostgres,
+   (KValue, S_value); (KAtTz, S_field); (KClickHouse, S__distinct_on); (KPostgres, S__using); (KPostgres, S__from); (KPostgres,
    S__insert_table); (KPostgres, S__update_table); (KPostgres, S__with); (KPostgres, S__selects); (KPostgres,
    S__columns); (KPostgres, S__values); (KPostgres, S__wheres); (KPostgres, S__prewheres); (KPostgres, S__groupbys);
    (KPostgres, S__havings); (KPostgres, S__orderbys); (KPostgres, S__joins); (KPostgres, S__updates); (KPostgres,
